@@ -79,6 +79,19 @@ def term_line(t) -> str:
     raise ValueError(k)
 
 
+def peel_stmt(t):
+    """`limit(offset(filter(a, w), o), l)` is ONE statement `SELECT a FILTER w OFFSET o LIMIT l`:
+    -> (a, filter-term|None, offset-term|None, limit-term|None); clauses are peeled in that order only"""
+    lim = off = flt = None
+    if t[0] in ('limit', 'limitc'):
+        lim, t = t, t[1]
+    if t[0] == 'offset':
+        off, t = t, t[1]
+    if t[0] == 'filter':
+        flt, t = t, t[1]
+    return t, flt, off, lim
+
+
 def schema_line(sch) -> str:
     ps = ';'.join(f"{p['src']},{int(p['required'])},{int(p['multi'])},"
                   f"{-1 if p['link'] is None else p['link']},{int(p['exclusive'])}" for p in sch['ptrs']) or '-'
@@ -177,7 +190,10 @@ class RealIR:
     (subclasses of the real schema classes answering the handful of methods the
     inference calls); the scope tree is a real ``ScopeTreeNode`` tree."""
 
-    def __init__(self, sch):
+    def __init__(self, sch, merge=True):
+        # merge: a chain limit(offset(filter(a))) is built as ONE SelectStmt (what the front-end does for
+        # `SELECT a FILTER .. OFFSET .. LIMIT ..`); otherwise one SelectStmt per clause (nested selects)
+        self.merge = merge
         import shim  # noqa: F401
         from edb.ir import ast as irast, pathid
         from edb.schema import name as sn, pointers as s_pointers, objtypes as s_objtypes
@@ -374,27 +390,35 @@ class RealIR:
             mk = self.opcall if f['isOp'] else self.fncall
             return mk(f['name'], f['params'], f['ret'], args, self.tr_int, None)
         if k in ('filter', 'limit', 'limitc', 'offset'):
+            if self.merge:
+                a, flt, off, lim = peel_stmt(t)
+            else:
+                a, flt, off, lim = t[1], (t if k == 'filter' else None), (t if k == 'offset' else None), \
+                    (t if k in ('limit', 'limitc') else None)
             f1 = self.fence(scope)
-            res = self._build(t[1], binders, f1)
+            res = self._build(a, binders, f1)
             ty = self._ty(res)
             kw = {}
-            if k == 'filter':
+            if flt is not None:
                 # the result is registered in the statement's scope, the clause has its own fence
                 f1.attach_child(irast.ScopeTreeNode(path_id=res.path_id))
                 fw = self.fence(f1)
-                w = self._build(t[2], [res] + binders, fw)
+                w = self._build(flt[2], [res] + binders, fw)
                 if w.path_scope_id is None:
                     w.path_scope_id = fw.unique_id
                 kw['where'] = w
-            elif k == 'limit' or k == 'offset':
-                fk = self.fence(f1)
-                kk = self._build(t[2], binders, fk)
-                if kk.path_scope_id is None:
-                    kk.path_scope_id = fk.unique_id
-                kw['limit' if k == 'limit' else 'offset'] = kk
-            else:
-                kw['limit'] = self.mkset(irast.IntegerConstant(value=str(t[2]), typeref=self.tr_int),
-                                         self.tr_int, None)
+            for cl, name in ((off, 'offset'), (lim, 'limit')):
+                if cl is None:
+                    continue
+                if cl[0] == 'limitc':
+                    kw['limit'] = self.mkset(irast.IntegerConstant(value=str(cl[2]), typeref=self.tr_int),
+                                             self.tr_int, None)
+                else:
+                    fk = self.fence(f1)
+                    kk = self._build(cl[2], binders, fk)
+                    if kk.path_scope_id is None:
+                        kk.path_scope_id = fk.unique_id
+                    kw[name] = kk
             stmt = irast.SelectStmt(result=res, **kw)
             s = self.mkset(stmt, res.typeref, ty, path_scope_id=f1.unique_id)
             self.ty_of[s] = ty
@@ -438,7 +462,8 @@ def bsid(n: int):
 
 
 class Toy:
-    def __init__(self, sch, db):
+    def __init__(self, sch, db, merge=True):
+        self.merge = merge
         import shim  # noqa: F401
         from edb.tools import toy_eval_model as T
         from edb.edgeql import ast as qlast
@@ -495,6 +520,18 @@ class Toy:
             if kind == 'unop':
                 return ql.UnaryOp(op=op, operand=args[0])
             return ql.BinOp(op=op, left=args[0], right=args[1])
+        if k in ('filter', 'limit', 'limitc', 'offset') and self.merge:
+            a, flt, off, lim = peel_stmt(t)
+            kw = {}
+            if flt is not None:
+                kw['result_alias'] = f'x{depth}'
+                kw['where'] = self.q(flt[2], depth + 1)
+            if off is not None:
+                kw['offset'] = self.q(off[2], depth)
+            if lim is not None:
+                kw['limit'] = (ql.Constant(kind=ql.ConstantKind.INTEGER, value=str(lim[2])) if lim[0] == 'limitc'
+                               else self.q(lim[2], depth))
+            return ql.SelectQuery(result=self.q(a, depth), **kw)
         if k == 'filter':
             return ql.SelectQuery(result=self.q(t[1], depth), result_alias=f'x{depth}',
                                   where=self.q(t[2], depth + 1))
